@@ -210,6 +210,12 @@ public:
             }
 
         } // for
+
+        // pixel values index the palette with up to 8 bits: indices beyond the declared entries read black, not out of bounds
+        if( _palette.size() < 256 )
+        {
+            _palette.resize( 256, rgba8_pixel_t(0, 0, 0, 0));
+        }
     }
 
     /// Check if image is large enough.
